@@ -1559,6 +1559,13 @@ impl BytecodeVM {
         let current_arguments = mem::take(&mut self.arguments);
         self.release_arguments(current_arguments);
 
+        // A `return` from inside nested blocks leaves the callee's block scopes open:
+        // pop them (and their environment guards) before switching to the caller's
+        // saved_env_stack, as the error path does.
+        while let Some(saved_env) = self.saved_env_stack.pop() {
+            interp.pop_scope(saved_env);
+        }
+
         // Restore VM state
         self.ip = frame.ip;
         self.chunk = frame.chunk;
